@@ -14,6 +14,8 @@ UNIT = dict(
     extract=[
         dict(id="Signal", kind="type", src="crates/signals/src/lib.rs", name="Signal", structural=True),
         dict(id="QuitManner", kind="type", src="crates/lib/src/action/quit.rs", name="QuitManner", structural=True),
+        dict(id="Handler::new", kind="fn", src="crates/lib/src/action/handler.rs", impl="impl Handler", name="new",
+             rules=dict(subst=[("Arc<[Event]>", "ArcEvents"), ("HashMap<Id, Job>", "JobMap"), ("HashMap::new()", "Vec::new()")])),
         dict(id="quit_job_task", kind="block", src=W, within="worker", after="tasks.spawn(async move", free=["job", "signal", "grace"],
              rules=dict(await_mark=True)),
         dict(id="worker", kind="fn", src=W, name="worker",
